@@ -41,6 +41,7 @@ VIOLATION_MSGS = [
     'possible arithmetic underflow/overflow', 'possible division by zero', 'possible bit shift underflow/overflow',
     'unable to prove assertion safety condition', 'recursive call', 'could not prove termination',
     'loop ensures not satisfied', 'possible truncation', 'failed this', 'not satisfied',
+    'unable to prove post-condition', 'unable to prove pre-condition', 'post-condition of closure',
 ]
 RESOURCE_MSGS = ['Resource limit', 'rlimit', 'timed out', 'timeout']
 
@@ -81,13 +82,19 @@ def split_spec(spec):
 
 
 _CMP = {'!=': 'f64_ne', '==': 'f64_eq', '>=': 'f64_ge', '<=': 'f64_le', '>': 'f64_gt', '<': 'f64_lt'}
+_CMPN = {'==': 0, '!=': 1, '>=': 2, '<=': 3, '>': 4, '<': 5}
+_FMETH = 'fract|abs|trunc|ceil|floor|round|is_nan|is_finite|is_infinite|is_sign_negative|is_sign_positive|to_string'
 
 # named generic rewrites (DESIGN.md §3.2 rule 2): the operator that is in the code picks the shim, so a changed
 # operator is still extracted and then fails the contract instead of losing the anchor
 BUILTINS = {
     # comparison of an f64 place with a float literal:  *n != 0.0  ->  f64_ne(*n, 0.0)
-    'f64cmp': (r'(\*\w+|\b\w+)\s*(!=|==|>=|<=|>|<)\s*(-?\d+\.\d+)\b',
-               lambda m: '%s(%s, %s)' % (_CMP[m.group(2)], m.group(1), m.group(3))),
+    'f64cmp': (r'(\*\w+|\b\w+(?:\.\w+\(\))?)\s*(!=|==|>=|<=|>|<)\s*(-?\d+\.\d+)\b',
+               lambda m: 'm_cmp(%du8, %s, %s)' % (_CMPN[m.group(2)], m.group(1), m.group(3))),
+    # f64 methods on a binding: n.fract() -> m_fract(n); (*n as i64) -> m_as_i64(*n)
+    'f64method': (r'\b(\w+)\.(%s)\(\)' % _FMETH, lambda m: 'm_%s(%s)' % (m.group(2), m.group(1))),
+    'f64cast': (r'(?<![\w>])\((\*\w+) as (usize|i64)\)|(\*\w+) as (usize|i64)',
+                lambda m: 'm_as_%s(%s)' % (m.group(2) or m.group(4), m.group(1) or m.group(3))),
     # self.symbols.iter()[.rev()].map(|table| table.lookup_X(name)).find(Self::stop_searching)
     #   -> search_lookup_X(&self.symbols, <rev present?>, name)        (rule 5: direction read off the chain; the
     #      predicate must be stop_searching and the element function a SymTable lookup of `name`)
@@ -151,6 +158,10 @@ def build(unit_name, outdir, global_rw=()):
                 pass
             elif key == 'unitrw':
                 unit_rw.append(parse_rw(arg) + (False,))
+            elif key == 'unitbuiltin':
+                if arg not in BUILTINS:
+                    raise UnitError('%s: unknown builtin rewrite %s' % (tpath, arg))
+                unit_rw.append(BUILTINS[arg] + (False,))
             elif key in ('fn', 'item'):
                 cur = Block(key, [x.strip() for x in arg.split('|')])
                 payload_key = None
